@@ -401,7 +401,21 @@ def gen_case(rng, style=None) -> dict:
                 col[npre + c] = rng.randint(-16, 32) / 8.0
             if not p["when"] and rng.chance(0.12):
                 col[npre + c] = NAN           # unconditional exogenization at a date with no observation
+    # ---- non-default option target_db: the results are collected into an existing databox ---------------------------------
+    target = None
+    if rng.chance(0.25):
+        kind = rng.weighted([("foreign", 1), ("stale", 2), ("baseline", 2), ("input", 1)])
+        target = {"kind": kind, "data": {}}
+        for on in ("other_a", "other_b")[: rng.randint(1, 2)]:
+            target["data"][on] = [NAN if rng.chance(0.1) else rng.randint(-16, 32) / 8.0 for _ in range(ncols + 2)]
+        if kind == "stale":
+            # the target already holds series under the model's names (say, results collected earlier), with other values
+            for name in sorted(set(lhs_names)) + res_names + exo:
+                if rng.chance(0.8):
+                    target["data"][name] = [NAN if rng.chance(0.05) else rng.randint(4, 40) / 8.0 for _ in range(ncols + 2)]
+        target["data"] = {k: [None if v != v else v for v in col] for k, col in target["data"].items()}
     return {
+        "target": target,
         "style": style, "eqs": eqs, "prep": prep, "pars": pars, "exo": exo, "npre": npre, "nper": nper, "npost": npost,
         "plan": plan, "data": {k: [None if v != v else v for v in col] for k, col in data.items()},
         "freq": rng.choice(["ii", "qq", "yy"]), "start": rng.randint(5, 40),
@@ -564,7 +578,41 @@ def build_impl(case, counts=None):
         return "ok", output_values(case, out, span), out
     pre_runs = []
     m, eff = apply_prep(m, case, counts, simulate, pre_runs)
-    return m, db, span, make_plan(m), eff, pre_runs
+    return m, db, span, make_plan(m), eff, pre_runs, build_target(case, m, db, span, p0)
+
+
+def build_target(case, m, db, span, p0):
+    """the databox handed to `simulate(..., target_db=)`: foreign names only; the model's names with stale values; the output of
+    a baseline run of the same object (no plan, no residuals) plus foreign names; the input databox itself"""
+    t = case.get("target")
+    if not t:
+        return None
+    if t["kind"] == "input":
+        return db
+    tdb = ir.Databox()
+    if t["kind"] == "baseline":
+        base_in = ir.Databox()
+        for n in db.keys():
+            if not n.startswith("res_"):
+                base_in[n] = db[n]
+        try:
+            tdb = m.simulate(base_in, span, when_simulates_nan="silent")
+        except Exception:
+            tdb = ir.Databox()
+    for n, col in t["data"].items():
+        tdb[n] = ir.Series(start=p0 - case["npre"] - 1, values=np.array([NAN if v is None else v for v in col], dtype=float))
+    return tdb
+
+
+def snapshot(dbx, names):
+    out = {}
+    for n in names:
+        try:
+            x = dbx[n]
+            out[n] = (str(x.start), tuple(None if v != v else float(v) for v in x.get_data().ravel()))
+        except Exception as e:
+            out[n] = ("missing", type(e).__name__)
+    return out
 
 
 def output_values(case, out, span):
@@ -610,8 +658,10 @@ def run_impl(case, order, built=None):
         if isinstance(built, BaseException):
             raise built
         m, db, span, plan, *_ = built
+        target = built[6] if len(built) > 6 else None
+        kw = {} if target is None else {"target_db": target}
         out = m.simulate(db, span, plan=plan, when_simulates_nan="silent",
-                         execution_order="dates_equations" if order == "de" else "equations_dates")
+                         execution_order="dates_equations" if order == "de" else "equations_dates", **kw)
     except Exception as e:
         return err_kind(e), None, None
     return "ok", output_values(case, out, span), out
@@ -1047,7 +1097,20 @@ def run_cases(ctx: Ctx, cases, with_model=True):
             oracle(ctx, cases[ci], order0, status0, vals0, out0, eff0)
     for k, (ci, order) in enumerate(jobs):
         case, eff = cases[ci], effs[ci]
+        target = None if isinstance(built[ci], BaseException) else built[ci][6]
+        foreign = sorted(n for n in (case.get("target") or {"data": {}})["data"] if n.startswith("other_"))
+        before = snapshot(target, foreign) if target is not None else None
         status, vals, out_db = run_impl(case, order, built[ci])
+        if target is not None:
+            ctx.count("target_db_" + case["target"]["kind"])
+            if status == "ok":
+                # E-class stream: series of the target that the model does not produce are carried over untouched into the returned
+                # databox, and the target itself is left as it was (the equations / exogenized values are judged by the oracle on the
+                # RETURNED databox like everything else)
+                ctx.streams_compared["target-db"] = ctx.streams_compared.get("target-db", 0) + 1
+                got, after = snapshot(out_db, foreign), snapshot(target, foreign)
+                if got != before or after != before:
+                    ctx.disagree("target-db", {"case": case, "order": order}, str(got)[:300], str(before)[:300])
         for op in case.get("prep", []):
             ctx.count("prep_" + op[0])
         if eff is not None and eff != list(range(len(eff))):
@@ -1130,7 +1193,9 @@ RULE = ("random sequential models (1-8 equations; LHS transforms none/log/diff/d
         "shifts -1..-3) x multi-step use of the model object before simulating (source written in a shuffled order then reorder_equations / "
         "sequentialize(), random re-orderings, copy(), full simulations with the plan before and between the re-orderings; the same "
         "object simulated under both orders) x pseudo-functions in every documented spelling (diff, diff_log/difflog, pct, roc, shift, "
-        "mov_sum/movsum, mov_avg/movavg, mov_prod/movprod, with and without explicit window) on right-hand sides, diff_log/difflog on the left x both execution orders. A case is non-trivial when it has >= 2 equations and >= 2 periods or mixes simulated and "
+        "mov_sum/movsum, mov_avg/movavg, mov_prod/movprod, with and without explicit window) on right-hand sides, diff_log/difflog on the left "
+        "x the target_db option (absent; foreign names only; the model's names with stale values; a baseline run of the same object; the "
+        "input databox itself) x both execution orders. A case is non-trivial when it has >= 2 equations and >= 2 periods or mixes simulated and "
         "exogenized steps; distinct = distinct (order, #equations, #periods, set of LHS transforms, set of plan transforms, fallback seen, exact class)")
 
 
